@@ -199,6 +199,26 @@ func execMeta(o *Out, id, line string) {
 				}
 				if !bytes.Equal(got, d.payload) {
 					o.Violate("C10", fmt.Sprintf("meta.Reader with %d-byte reads delivers different data", sz), "meta-read-size", line)
+					o.Violate("C16", fmt.Sprintf("meta.Reader with %d-byte reads does not deliver the encoded payload (%d of %d bytes)", sz, len(got), len(d.payload)), "meta-read-size", line)
+				}
+			}
+			// exact consumption through every source shape, with bytes following the meta stream
+			if d.final != 0 {
+				tr := []byte{0xde, 0xad, 0xbe, 0xef}
+				for _, src := range []string{"byte", "byteeof", "bytes", "buffer", "bufio16", "readonly"} {
+					sr := mkSource(src, append(append([]byte{}, in[:d.consumed]...), tr...), -1, 0, nil, []int{2, 5})
+					mr := xflate.VerifNewMetaReader(sr)
+					got, e := io.ReadAll(mr)
+					rest, _ := io.ReadAll(sr)
+					if e != nil || !bytes.Equal(got, d.payload) {
+						o.Violate("C10", fmt.Sprintf("meta.Reader through source %s: err=%v, %d of %d payload bytes", src, e, len(got), len(d.payload)), "meta-source-shape", line)
+						break
+					}
+					exactSrc := src == "byte" || src == "byteeof" || src == "bytes" || src == "buffer"
+					if mr.InputOffset != int64(d.consumed) || (exactSrc && !bytes.Equal(rest, tr)) {
+						o.Violate("C11", fmt.Sprintf("meta.Reader through source %s: stream of %d bytes, InputOffset=%d, %d bytes left unread (trailer %d)", src, d.consumed, mr.InputOffset, len(rest), len(tr)), "meta-over-read", line)
+						break
+					}
 				}
 			}
 			mr := xflate.VerifNewMetaReader(bytes.NewReader(in))
